@@ -285,6 +285,8 @@ def predicates(cfg, out, M_last):
         return [("C05_shapes", f"shapes {U.shape},{S.shape},{V.shape} expected {su},{ss},{sv_}")]
     if not finite3((U, S, V)):
         return [("C05_finite", "non-finite entries in the returned triple")]
+    if not np.all(np.isfinite(M_last)):
+        return [("C05_finite", "non-finite matrix handed to the SVD back end during mask imputation")]
     sig = np.linalg.svd(M_last, compute_uv=False)
     smax = max(float(sig.max()), 1e-300) if sig.size else 1.0
     loose = method == "symeig_svd"
@@ -365,42 +367,15 @@ def clf_symeig_rank_deficient(f):
     if inp.get("method") != "symeig_svd" or f["predicate"] != "C05_orthonormal":
         return False
     M = _arr(f["extra"].get("M_last", inp["matrix"]))
+    if not np.all(np.isfinite(M)):
+        return False
     sig = np.linalg.svd(M, compute_uv=False)
     n = inp.get("n_eigenvecs")
     k = max(M.shape) if n is None else min(n, max(M.shape))
     return num_rank(sig) < min(k, min(M.shape))
 
 
-def clf_nndsvda_negative_mean(f):
-    inp = f["inputs"]
-    if f["predicate"] != "C05_non_negative" or inp.get("non_negative") not in (True, "nndsvda"):
-        return False
-    M = _arr(f["extra"].get("M_last", inp["matrix"]))
-    return float(np.mean(M)) < 0
-
-
-def clf_nndsvd_zero_norm_division(f):
-    """non_negative requested and, for the (sign-resolved) SVD the option is applied to, some component j >= 1 has
-    ||x+||*||y+|| == 0 == ||x-||*||y-||  (the code then divides by a zero norm)"""
-    inp = f["inputs"]
-    if f["predicate"] not in ("C05_finite", "C05_non_negative") or inp.get("non_negative") in (None, False):
-        return False
-    cfg = cfg_from_inputs(inp)
-    cfg["nn"] = None
-    out, _ = run_interface(cfg["matrix"], cfg["method"], cfg["n"], cfg["flip"], cfg["ub"], None, cfg["mask"], cfg["iters"], cfg["kwargs"])
-    if out[0] != "ok":
-        return False
-    U, S, V = out[1]
-    for j in range(1, min(U.shape[1], V.shape[0])):
-        x, y = U[:, j], V[j, :]
-        mp = np.linalg.norm(np.clip(x, 0, None)) * np.linalg.norm(np.clip(y, 0, None))
-        mn_ = np.linalg.norm(np.clip(x, None, 0)) * np.linalg.norm(np.clip(y, None, 0))
-        if mp == 0 and mn_ == 0:
-            return True
-    return False
-
-
-CLASSIFIERS = {"nndsvd_zero_norm_division": clf_nndsvd_zero_norm_division, "symeig_rank_deficient": clf_symeig_rank_deficient, "nndsvda_negative_mean": clf_nndsvda_negative_mean}
+CLASSIFIERS = {"symeig_rank_deficient": clf_symeig_rank_deficient}
 
 
 def _install_known_loader():
@@ -419,6 +394,30 @@ def _install_known_loader():
         return ks
     load._c05 = True
     C.load_known = load
+
+
+# ----------------------------------------------------------------------------- shard retry (local helper)
+def retry_broken(broken, timeout=900):
+    """A coqc shard killed from outside (SIGKILL by the OOM killer of the shared machine, or the shell timeout) carries no
+    verdict: evaluate such shard files once more, one at a time.  Returns (failing ids, still broken)."""
+    import re, subprocess, shutil
+    failing, still = set(), []
+    for b in broken:
+        fn = b.get("shard", "")
+        if b.get("rc") not in (-9, 137, 124, -15) or not os.path.exists(fn):
+            still.append(b)
+            continue
+        r = subprocess.run(["timeout", str(timeout), "coqc", "-w", "none", "-R", os.path.join(C.COQ, "theories"), "TLV", fn],
+                           capture_output=True, text=True, cwd=os.path.dirname(fn))
+        out = r.stdout.replace("\n", " ").replace("%nat;", ";").replace("%nat]", "]")
+        m = re.search(r"=\s*\((\d+)(?:%nat)?,\s*\[([\d;\s]*)\](?:%nat)?\)", out)
+        if r.returncode != 0 or not m:
+            still.append(dict(b, retry_rc=r.returncode, retry_stderr=r.stderr[-1000:]))
+            continue
+        failing.update(int(x) for x in m.group(2).replace(" ", "").split(";") if x)
+    if not still and broken:
+        shutil.rmtree(os.path.dirname(broken[0]["shard"]), ignore_errors=True)
+    return failing, still
 
 
 # ----------------------------------------------------------------------------- case generation
@@ -516,6 +515,10 @@ def nn_ill_conditioned(cfg):
         xp, yp, xn, yn = np.clip(x, 0, None), np.clip(y, 0, None), np.abs(np.clip(x, None, 0)), np.abs(np.clip(y, None, 0))
         a, b, c, d = (np.linalg.norm(v) for v in (xp, yp, xn, yn))
         mp, mn_ = a * b, c * d
+        if any(0 < abs(t) < 1e-150 for t in list(x) + list(y)):
+            return True      # squares underflow: the float norms can vanish where the exact ones do not (guard m_p == 0 and m_n == 0)
+        if mp == 0 and mn_ == 0:
+            continue
         if abs(mp - mn_) <= 1e-9 * max(mp, mn_):
             return True
         with np.errstate(all="ignore"):
@@ -572,7 +575,7 @@ def run(chk):
     cfgs += list(configs(tier, rng))
     for idx, cfg in enumerate(cfgs):
         out, tp, M_last, bad = evaluate(cfg)
-        sig = np.linalg.svd(M_last, compute_uv=False) if cfg["method"] in METH_LIT else np.zeros(1)
+        sig = np.linalg.svd(M_last, compute_uv=False) if cfg["method"] in METH_LIT and np.all(np.isfinite(M_last)) else np.zeros(1)
         nontrivial = cfg["matrix"].size > 1
         chk.count(key=(cfg["method"], cfg["matrix"].shape, cfg["kind"], cfg["n"], cfg["flip"], cfg["ub"], str(cfg["nn"]), cfg["mask"] is not None),
                   nontrivial=nontrivial)
@@ -592,7 +595,12 @@ def run(chk):
             if out[0] == "crash":
                 continue
             ncalls = 1 + (cfg["iters"] if cfg["mask"] is not None and cfg["n"] is not None else 0)
-            ents = build_tape(cfg["method"], tp, cfg["matrix"], ncalls) if cfg["method"] in METH_LIT else []
+            try:
+                ents = build_tape(cfg["method"], tp, cfg["matrix"], ncalls) if cfg["method"] in METH_LIT else []
+                if any(not finite3(a) or not np.all(np.isfinite(m)) for (m, a, _b) in ents):
+                    ents = []           # a NaN went through the back end: nothing exact to compare (the predicates report it)
+            except np.linalg.LinAlgError:
+                ents = []
             if cfg["method"] in METH_LIT and not ents:
                 skipped_tape += 1
                 continue
@@ -604,6 +612,9 @@ def run(chk):
     meta = grp.meta
     cases, per = grp.shards()
     failing, n_groups, broken = C.run_case_shards("C05", HEADER, "case", cases, shard=per)
+    if broken:
+        f2, broken = retry_broken(broken)
+        failing |= f2
     n_eval = len(meta) if not broken else 0
     chk.cov["coq_groups"] = len(cases)
     chk.checker_cmds.append("coqc (vm_compute) on generated build/cases/C05/*/*.v: Corr.C05.failing / dfailing")
@@ -616,6 +627,10 @@ def run(chk):
     # direct calls of svd_flip / symeig_svd
     dcases, dmeta = direct_cases(chk, tier, rng)
     dfail, dn, dbroken = C.run_case_shards("C05", HEADER_D, "dcase", dcases, shard=(80 if tier == "quick" else 150), tag="direct")
+    if dbroken:
+        f2, dbroken = retry_broken(dbroken)
+        dfail |= f2
+        dn = len(dcases) if not dbroken else dn
     for b in dbroken:
         chk.broken.append({"what": "correspondence corr:C05 (direct) shard not evaluated", "detail": b})
     for i in sorted(dfail):
@@ -628,14 +643,16 @@ def run(chk):
     chk.cov["rule"] = ("shapes tall/square/wide/1xN/Nx1 x {generic dyadic, integer, rank-deficient, repeated-sigma} matrices x n_eigenvecs in 1..max+2 and None "
                        "x methods truncated/symeig/randomized/callable x flip {off, U-based, V-based}, plus masked and non_negative requests; every configuration "
                        "goes through the Python predicates, the Coq correspondence takes all truncated_svd and masked configurations and a fixed fraction of the others "
-                       "(matrices up to 6x6), plus direct svd_flip calls on tie/zero/padding matrices and direct symeig_svd calls on well-conditioned matrices; "
+                       "(matrices up to 6x6; quick: per shape two of the four kinds), plus direct svd_flip calls on tie/zero/padding matrices, direct symeig_svd calls on well-conditioned matrices "
+                       "and direct randomized_svd calls (n_oversamples 0/1/2/5, n_iter 0/1/2, generic / integer / rank-deficient matrices); "
                        "non-trivial = matrix with more than one entry; distinct key = (method, shape, kind, n_eigenvecs, flip options, non_negative, masked)")
     chk.assumptions = ["np.linalg.svd / eigh meet their contract (orthonormal factors, sorted non-negative S, U S V = M); measured on this run by the residual predicates",
                        "floating-point rounding is not modelled; exact comparison is used only where the code performs slicing and multiplications by +-1",
                        "randomized_svd is required to be exact only when n_eigenvecs + n_oversamples covers the numerical rank"]
     chk.trusted += ["oracles: numpy.linalg.svd / eigh answers are taped (Backend.register_method) and handed to the model as data; "
                     "symeig_svd / randomized_svd / callable answers inside svd_interface are taped at the dispatched function",
-                    "Eckart-Young is a named hypothesis of C05_best_approx_partial, not proved"]
+                    "randomized_svd called directly: the Gaussian test matrix (a recording RandomState), every tl.qr and tl.svd answer are taped",
+                    "Eckart-Young optimality is not mechanised: 'best approximation' is reduced to the error identity of C05_truncated_error"]
     return chk.finish(CLASSIFIERS)
 
 
@@ -716,6 +733,63 @@ def direct_cases(chk, tier, rng):
         _, lam, W = tape[0]
         dcases.append(f"(DSymeig {len(dcases)}%nat {d1}%nat {d2}%nat {optnat(n)} {qmat(M)} {qvec(lam)} {qmat(W)} {triple_lit(out[1])})")
         dmeta.append({"call": "symeig_svd", "matrix": M, "n_eigenvecs": n})
+    # randomized_svd called directly: Gaussian test matrix, every tl.qr and tl.svd answer taped; the model does the products,
+    # transposes, branch condition, n_dims, inner truncation and the lifting by Q
+    class RecRS(np.random.RandomState):
+        def normal(self, *a, **kw):
+            r_ = super().normal(*a, **kw)
+            self.drawn = getattr(self, "drawn", []) + [np.array(r_, copy=True)]
+            return r_
+    nrand = 36 if tier == "quick" else 240
+    for it in range(nrand):
+        d1, d2 = rng.randint(1, 6), rng.randint(1, 6)
+        kind = rng.choice(["generic", "generic", "rankdef", "integer"])
+        M = make_matrix(kind, (d1, d2), rng)
+        if M is None:
+            M = make_matrix("generic", (d1, d2), rng)
+        n = rng.choice([None] + list(range(1, max(d1, d2) + 2)))
+        n_over, n_iter, seed = rng.choice([0, 1, 2, 5]), rng.choice([0, 1, 2]), rng.randrange(10 ** 6)
+        qrs, svds = [], []
+
+        def rec_qr(a, *args, **kw):
+            r_ = np.linalg.qr(a, *args, **kw)
+            qrs.append((np.array(a, dtype=float, copy=True), np.array(r_[0], copy=True)))
+            return r_
+
+        def rec_svd(a, full_matrices=True, **kw):
+            r_ = np.linalg.svd(a, full_matrices=full_matrices, **kw)
+            svds.append((np.array(a, dtype=float, copy=True), bool(full_matrices), tuple(np.array(x, copy=True) for x in r_)))
+            return r_
+        rs = RecRS(seed)
+        NumpyBackend.register_method("qr", rec_qr)
+        NumpyBackend.register_method("svd", rec_svd)
+        try:
+            out = C.call_impl(lambda: svdmod.randomized_svd(M.copy(), n_eigenvecs=n, n_oversamples=n_over, n_iter=n_iter, random_state=rs))
+        finally:
+            NumpyBackend.register_method("qr", np.linalg.qr)
+            NumpyBackend.register_method("svd", np.linalg.svd)
+        meta_ = {"call": "randomized_svd", "matrix": M, "n_eigenvecs": n, "n_oversamples": n_over, "n_iter": n_iter, "random_state": seed}
+        chk.count(key=("randomized_svd", M.shape, n, n_over, n_iter, M.tobytes()), nontrivial=M.size > 1)
+        chk.hist("method", "randomized_svd(direct)")
+        if out[0] == "crash" and out[1] == "timeout":
+            continue
+        drawn = getattr(rs, "drawn", [])
+        if out[0] != "ok" or not finite3(out[1]) or len(drawn) != 1 or not qrs or not svds:
+            chk.finding("tensorly.tenalg.svd.randomized_svd", meta_, f"randomized_svd failed / did not use the given random_state, tl.qr, tl.svd as documented: {out[0]} {str(out[1])[:100]} draws={len(drawn)} qr={len(qrs)} svd={len(svds)}", "C05_randomized_returns")
+            continue
+        try:
+            sv_ents = []
+            for (m, full, ans) in svds:
+                other = tuple(np.linalg.svd(m, full_matrices=not full))
+                a_, b_ = (ans, other) if full else (other, ans)
+                sv_ents.append(f"({qmat(m)}, {triple_lit(a_)}, {triple_lit(b_)})")
+            qr_ents = [f"({qmat(m)}, {qmat(q_)})" for (m, q_) in qrs]
+            lit = (f"(DRandom {len(dcases)}%nat {d1}%nat {d2}%nat {optnat(n)} {n_over}%nat {n_iter}%nat {qmat(M)} {qmat(drawn[0])} "
+                   f"[{'; '.join(qr_ents)}] [{'; '.join(sv_ents)}] {triple_lit(out[1])})")
+        except (ValueError, np.linalg.LinAlgError):
+            continue
+        dcases.append(lit)
+        dmeta.append(meta_)
     return dcases, dmeta
 
 
